@@ -90,11 +90,11 @@ Definition post (m : size_mode) (sz : cell) (rd0 : N) (b0 : list N) (eof0 : bool
 Definition bound (m : size_mode) (sz : cell) (r : receiver) : Prop :=
   forall e, expected m sz = Some e -> r_read r <= e.
 
-Arguments len : simpl never.
-Arguments evbytes : simpl never.
-Arguments expected : simpl never.
-Arguments firstn : simpl never.
-Arguments skipn : simpl never.
+#[local] Arguments len : simpl never.
+#[local] Arguments evbytes : simpl never.
+#[local] Arguments expected : simpl never.
+#[local] Arguments firstn : simpl never.
+#[local] Arguments skipn : simpl never.
 Ltac prj := try unfold set in *; cbn in *.
 
 Ltac fin := repeat (first [assumption | split]); prj; rewrite ?len_nil, ?app_nil_r, ?N.add_0_r; auto; try congruence; try lia.
@@ -985,3 +985,17 @@ Proof.
   replace (4 * length q + 4)%nat with (S (4 * length q + 3)) by lia. cbn [poll_read_fuel].
   unfold read_iter, complete_verify. destruct Hst as [->| ->]; reflexivity.
 Qed.
+
+(** Dropping an unsized sender that has not shut down, once that is known at the receiving endpoint,
+    is what the receiver's size future sees as [CDropped] (so [short_end_unsized] gives
+    [UnexpectedEof]); a cut connection looks the same unless the size had arrived before. *)
+Theorem drop_unsized_view y s :
+  y_tx y = Some s -> s_mode s = Unknown -> y_down y = false ->
+  view (fst (step (fst (step y ADropTx)) ADeliverSize)) = CDropped.
+Proof.
+  intros Hs Hm Hd. cbn [step]. rewrite Hs, Hm. cbn [fst y_down y_size]. rewrite Hd. reflexivity.
+Qed.
+
+Theorem cut_view y :
+  y_down y = false -> y_arrived y = false -> view (fst (step y ACut)) = CDropped.
+Proof. intros Hd Ha. cbn [step]. rewrite Hd. unfold view. cbn. now rewrite Ha. Qed.
